@@ -202,14 +202,14 @@ func runCheck(cfg *RunConfig) int {
 			return 2
 		}
 		h := &HarnessRun{prog: prog, name: hn, property: cfg.Property, fn: fn, tier: cfg.Tier,
-			feasTimeoutMs: 3000, assertTimeoutMs: 10000, maxSteps: 3000000, maxPaths: cfg.MaxPaths,
+			feasTimeoutMs: 3000, assertTimeoutMs: 30000, maxSteps: 3000000, maxPaths: cfg.MaxPaths,
 			fixedPicks: map[string]int{}, knownActive: knownActive, params: mergeParams(cfg.Params, cfg.HarnessParams[hn]),
 			aborted: map[string]int{}, abortMsgs: map[string]int{}, labels: map[string]*labelStat{},
 			covers: map[string]*Scenario{}, coverHits: map[string]int{}, knownHits: map[string]*Scenario{},
 			entered: map[string]int{}, intrinsics: map[string]int{}, mapRanges: map[string]int{}, shapes: map[string]int{}}
 		if cfg.Tier == "thorough" {
-			h.assertTimeoutMs = 60000
-			h.feasTimeoutMs = 10000
+			h.assertTimeoutMs = 120000
+			h.feasTimeoutMs = 5000
 		}
 		if len(cfg.Groups) > 0 {
 			h.groups = map[string]bool{}
